@@ -1,6 +1,7 @@
 package props
 
 import (
+	"encoding/json"
 	"fmt"
 	"path/filepath"
 	"sort"
@@ -338,6 +339,31 @@ func runC14(r *core.Run) {
 		exprs = append(exprs, q)
 	}
 	c14Sources(r, dir)
+	// the program is a constant also where it is a declaration: the DEFAULT expression of a function parameter is
+	// evaluated at every call (Scope.tla, family Sk11: the same call before and after what the default reads changed)
+	{
+		var cases []scopeCase
+		r.RunTLC(core.TLCOpts{Module: "ScopeGen", Cfg: "ScopeGen_defaults.cfg", Workers: 2, Timeout: 10 * time.Minute, OnTrace: func(raw json.RawMessage) {
+			var c scopeCase
+			if err := json.Unmarshal(raw, &c); err == nil && c.Prog != nil {
+				cases = append(cases, c)
+			}
+		}})
+		rep := map[string]bool{}
+		for _, c := range cases {
+			p, err := sut.NewProc(dir, nil)
+			if err != nil {
+				core.Fail("proc: %v", err)
+			}
+			sig, what := runScopeCase(r, p, c)
+			p.End()
+			if sig != "" && !rep[sig] {
+				rep[sig] = true
+				r.Violation("reuse:function-default:"+sig, what, map[string]interface{}{"program": c.Prog})
+			}
+		}
+		r.Coverage["default_parameter_programs"] = len(cases)
+	}
 	var lines []string
 	reported := map[string]bool{}
 	for i, o := range results {
